@@ -202,3 +202,8 @@ package json
 //@   props C01
 //@   nopanic
 //@   ensures result == (t == TypeString || t == TypeBoolean || t == TypeInteger || t == TypeFloat || t == TypeNull || t == TypeMixed)
+
+//@ func (Type).ToTokenType()
+//@   props C16
+//@   nopanic
+//@   ensures result == jsonTokenStr(t)
